@@ -1,5 +1,6 @@
 """C09 — version-gated detectors follow the file's 'pragma solidity' version (DESIGN 5/C09)."""
 from runner import Ob
+from rules import depend
 import sites as S
 import terms as T
 import core
@@ -18,7 +19,7 @@ META = {
                    "name == \"solidity\" of the pragma directive, for the first such directive. R09.none: without a version every reporting site is unreachable "
                    "(and nothing panics: C04). R09.pattern: the require/last-argument/string-literal pattern and the >= 32 threshold are checked by C05-C08's spec comparison.",
     "assumptions": ["PartialOrd on (i32,i32,i32) is lexicographic (std contract)", "the regex extraction of the triple from the pragma text is not decided"],
-    "floors": {"R09.formula": 4, "R09.compl": 1, "R09.pragma": 4, "R09.none": 4, "R09.pattern.must": 4, "R09.pattern.mustnot": 4},
+    "floors": {"R09.walker": 1, "R09.formula": 4, "R09.compl": 1, "R09.pragma": 4, "R09.none": 4, "R09.pattern.must": 4, "R09.pattern.mustnot": 4},
 }
 
 VERSION_FN = "analyzer::utils::get_solidity_version_from_source_unit"
@@ -86,6 +87,10 @@ def make_gate(target, sites, vopt, vsome, params):
 
 def run(ctx, crate):
     obs = []
+    # occurrences count wherever they are nested: inherited from C01 (the search reaches every syntactic position)
+    obs.append(depend.inherited(ctx, crate, "R09.walker", "analyzer::ast::walk_node_for_targets", "the search reaches every nested position (C01's obligations on the walker)",
+                                "C01", lambda o: o.rule in ("R01.children", "R01.order", "R01.once", "R01.uncond", "R01.preorder", "R01.loops", "R01.entry"),
+                                example="the pattern inside !( .. ) or inside a catch body"))
     G = grid(ctx.tier)
     gates = {}
     for name, (fn, flag) in DETECTORS.items():
